@@ -385,10 +385,11 @@ def gen_asrxn(rnd):
     while True:
         reac = {k: rnd.randint(1, 3) for k in rnd.sample(SPECIES, rnd.randint(1, 3))}
         prod = {k: rnd.randint(1, 3) for k in rnd.sample(SPECIES, rnd.randint(1, 3))}
-        if any(prod.get(k, 0) - reac.get(k, 0) for k in set(reac) | set(prod)):
+        inact_r = {k: rnd.randint(1, 2) for k in rnd.sample(SPECIES, rnd.choice([0, 0, 1]))}
+        inact_p = {k: rnd.randint(1, 2) for k in rnd.sample(SPECIES, rnd.choice([0, 0, 1]))}
+        # the constructor refuses an equilibrium whose net effect (inactive parts included) is zero
+        if any(prod.get(k, 0) + inact_p.get(k, 0) - reac.get(k, 0) - inact_r.get(k, 0) for k in SPECIES):
             break
-    inact_r = {k: rnd.randint(1, 2) for k in rnd.sample(SPECIES, rnd.choice([0, 0, 1]))}
-    inact_p = {k: rnd.randint(1, 2) for k in rnd.sample(SPECIES, rnd.choice([0, 0, 1]))}
     return dict(reac=sorted(reac.items()), prod=sorted(prod.items()),
                 inact_reac=sorted(inact_r.items()), inact_prod=sorted(inact_p.items()),
                 K=[rnd.randint(1, 99), rnd.randint(1, 99)], rate=[rnd.randint(1, 99), rnd.randint(1, 99)],
@@ -472,7 +473,8 @@ def run_asrxn(case):
 
 
 # ----------------------------------------------------------------------------------------------
-RUNNERS = dict(histories=run_history, eliminate=run_eliminate, cancel=run_cancel, as_reactions=run_asrxn)
+RUNNERS = dict(histories=run_history, eliminate_grid=run_eliminate, eliminate_random=run_eliminate,
+               cancel_grid=run_cancel, cancel_random=run_cancel, as_reactions=run_asrxn)
 
 
 def _work(job):
@@ -491,7 +493,7 @@ def run(tier, seed):
     quick = tier == "quick"
     jobs = []
     # histories
-    nh = 1500 if quick else 40000
+    nh = 4000 if quick else 60000
     seen = set()
     for _ in range(nh):
         c = gen_history(rnd)
@@ -502,21 +504,19 @@ def run(tier, seed):
     # eliminate: exhaustive over v0, v1 in [-60, 60] \ {0}
     rng = [v for v in range(-60, 61) if v]
     for v0, v1 in product(rng, rng):
-        jobs.append(("eliminate", dict(v0=v0, v1=v1)))
+        jobs.append(("eliminate_grid", dict(v0=v0, v1=v1)))
     n_extra = 600 if quick else 6000
     for _ in range(n_extra):  # X on both sides of an operand; exact constants for small multipliers
         v0, v1 = rnd.choice(rng[48:72]), rnd.choice(rng[48:72])
         c = dict(v0=v0, v1=v1, both0=rnd.randint(0, 3), both1=rnd.randint(0, 3))
         if abs(v0) <= 4 and abs(v1) <= 4:
             c["param"] = [["frac", rnd.randint(1, 9), rnd.randint(1, 9)], ["frac", rnd.randint(1, 9), rnd.randint(1, 9)]]
-        jobs.append(("eliminate", c))
+        jobs.append(("eliminate_random", c))
     # cancel: exhaustive nets a1, b1 in [-7, 7], a2, b2 in [-7, 7] \ {0}
     r1 = range(-7, 8)
     r2 = [v for v in range(-7, 8) if v]
     for a1, b1, a2, b2 in product(r1, r1, r2, r2):
-        if quick and (a1 + 3 * b1 + 5 * a2 + 7 * b2 + seed) % 4:
-            continue  # quick tier: a fixed quarter of the grid (rotating with the seed)
-        jobs.append(("cancel", dict(a1=a1, b1=b1, a2=a2, b2=b2)))
+        jobs.append(("cancel_grid", dict(a1=a1, b1=b1, a2=a2, b2=b2)))
     for _ in range(400 if quick else 8000):  # random equilibria with 1..3 shared species, larger coefficients
         ks = rnd.sample(SPECIES, rnd.randint(1, 3))
         n2 = {k: rnd.choice([-1, 1]) * rnd.randint(1, 9) for k in ks}
@@ -530,7 +530,7 @@ def run(tier, seed):
         if len([1 for v in n2.values() if v]) and any(n1.values()):
             e1, e2 = js(n1), js(n2)
             if (e1["reac"] or e1["prod"]):
-                jobs.append(("cancel", dict(e1=e1, e2=e2)))
+                jobs.append(("cancel_random", dict(e1=e1, e2=e2)))
     # as_reactions
     for _ in range(600 if quick else 10000):
         jobs.append(("as_reactions", gen_asrxn(rnd)))
@@ -550,18 +550,25 @@ def run(tier, seed):
                  "with exactly the non-zero species, scalings |m| times the operand with sides swapped for m<0, "
                  "constant == product K_i**c_i exactly.",
             bound="<= 4 operands, <= 6 operations, |combination coefficient| <= 12", exhaustive=False),
-        eliminate=dict(
-            rule="every pair of net coefficients v0, v1 in [-60, 60] \\ {0} of the species in the two equilibria "
-                 "(either side), plus random pairs with the species on both sides of an operand and, for |v| <= 4, "
-                 "exact constants: multipliers are non-zero integers, m0*v0 + m1*v1 == 0, the real m0*e0 + m1*e1 "
-                 "lists no X (and has constant K0**m0 * K1**m1).",
-            bound="|v| <= 60 (14400 pairs, complete)", exhaustive=False),
-        cancel=dict(
+        eliminate_grid=dict(
+            rule="every pair of net coefficients v0, v1 in [-60, 60] \\ {0} of the species X in two equilibria "
+                 "X-side/P and X-side/Q (X a reactant for v<0, a product for v>0): the multipliers are non-zero "
+                 "integers, m0*v0 + m1*v1 == 0, and the real m0*e0 + m1*e1 lists no X.",
+            bound="|v0|, |v1| <= 60: all 14400 pairs", exhaustive=True),
+        eliminate_random=dict(
+            rule="random pairs |v| <= 12 with up to 3 extra X on both sides of an operand (net unchanged) and, for "
+                 "|v| <= 4, exact Fraction constants: as above, and the combination has constant K0**m0 * K1**m1.",
+            bound="|v| <= 12, <= 3 extra on both sides", exhaustive=False),
+        cancel_grid=dict(
             rule="e1.cancel(e2) for every net pair (a1, b1) in [-7, 7]^2 of e1 and (a2, b2) in ([-7, 7] \\ {0})^2 of e2 "
-                 "in two shared species (quick: a seed-rotated quarter of the grid; thorough: all 44100), plus random "
-                 "equilibria with 1..3 shared species and nets up to 30: result == Fraction-truncated -v1/v2 of least "
-                 "magnitude, adding it flips no species of e2, one more step would; the real e1 + m*e2 has the predicted net.",
-            bound="nets in [-7, 7] (grid), <= 30 (random)", exhaustive=False),
+                 "in two shared species (e1 has a private species besides): result == Fraction-truncated -v1/v2 of "
+                 "least magnitude, adding it flips the sign of no species of e2, for a non-zero result one more step "
+                 "would; the real e1 + m*e2 has the predicted net. (A species of e2 with zero net, which makes cancel "
+                 "divide by zero, is outside the grid.)",
+            bound="nets in [-7, 7]: all 44100 combinations", exhaustive=True),
+        cancel_random=dict(
+            rule="the same checks on random equilibria with 1..3 shared species, nets of e1 up to 30, of e2 up to 9.",
+            bound="<= 3 shared species, |net| <= 30", exhaustive=False),
         as_reactions=dict(
             rule="random equilibria with inactive parts, K and the given rate Fractions in (1..99)/(1..99); kf given / "
                  "kb given / both / neither / K a (kf, kb) pair; 25% with chempy.units (K a float, rate with units, "
@@ -584,8 +591,6 @@ def run(tier, seed):
             g["samples"].append(dict(inputs=case, observed=detail))
         if not holds:
             g["violations"].append(dict(inputs=case, detail=detail))
-    if not quick:
-        pass
     for g in out.values():
         g["violations"].sort(key=lambda v: _key(v["inputs"]))
         g["violations"] = g["violations"][:200] if len(g["violations"]) > 200 else g["violations"]
